@@ -36,7 +36,9 @@ ERRNOS = ["ENOSPC", "EACCES", "EIO", "EINTR", "EROFS"]
 def scenarios(rng, thorough: bool):
     """Scenario = {id, entry, state, op}.  Values and file modes vary with the seed; the shape does not."""
     a, b = rng.randrange(1, 500), rng.randrange(500, 999)
-    mode1 = rng.choice([0o644, 0o640, 0o664, 0o600, 0o755])
+    # modes with every bit group set somewhere (a dropped group / dropped x bits must show): see notes/C16.md
+    mode1 = rng.choice([0o755, 0o751, 0o715, 0o775])
+    mode2 = rng.choice([0o644, 0o664, 0o646, 0o666])
     old = C.DOC.format(a=a, b="old text")
     new = C.DOC.format(a=b, b="new text →⊕ ünï")
     big = C.DOC.format(a=b, b="x" * 20000)          # larger than the io buffer: write() itself reaches the file
@@ -46,7 +48,7 @@ def scenarios(rng, thorough: bool):
     S_absent = {"content": None}
     S_old = {"content": old, "mode": mode1}
     S_ro = {"content": old, "mode": 0o444}
-    S_nc = {"content": noncanon, "mode": mode1}
+    S_nc = {"content": noncanon, "mode": mode2}
     S_missing = {"content": None, "missing_parent": True}
     S_broken = {"content": broken, "mode": 0o644}
     out = []
@@ -69,6 +71,7 @@ def scenarios(rng, thorough: bool):
     add("T13-invalid", "tool", S_old, content=broken)
     add("T14-changes-broken-file", "tool", S_broken, mode="changes", changes={"A": 1})
     add("T15-big", "tool", S_old, content=big, base="current")
+    add("T18-noncanonical-content", "tool", S_old, content=noncanon.replace(f"A::{a}", f"A::{b}"), base="current")
     # atomic_write_octave (writes the text it is given)
     add("A01-new", "atomic", S_absent, content=new)
     add("A02-overwrite", "atomic", S_old, content=new)
@@ -84,6 +87,7 @@ def scenarios(rng, thorough: bool):
     add("C05-stale", "cli", S_old, content=new, base="stale", stale=stale)
     add("C06-missing-parent", "cli", S_missing, content=new)
     add("C07-invalid", "cli", S_old, content=broken)
+    add("C09-noncanonical-content", "cli", {"content": old, "mode": mode2}, content=noncanon.replace(f"A::{a}", f"A::{b}"))
     if thorough:
         add("T16-normalize-readonly", "tool", {"content": noncanon, "mode": 0o444}, mode="normalize")
         add("T17-changes-missing-file", "tool", S_absent, mode="changes", changes={"A": 1})
